@@ -58,6 +58,11 @@ SRC_ITEM = NM("src", "Item", ("st", "V:string,Sub:*Sub,Subs:[]*Sub"))
 DEST_ITEM = NM("dest", "Item", ("st", "V:string,Sub:*Sub,Subs:[]Sub"))
 DEST_DEC = NM("dest", "Dec", ("st", "V:int"))
 MAP_SI, MAP_SS = O("map[string]int"), O("map[string]string")
+# named types whose underlying type is a slice / map / array / pointer / func / chan (opaque to the model but for identity):
+# the zero value of all but the array is nil
+NILABLE = {pkg: [NM(pkg, "Tags", B("[]string")), NM(pkg, "Attrs", B("map[string]string")), NM(pkg, "Hash", B("[4]uint8")),
+                 NM(pkg, "PInt", B("*int")), NM(pkg, "Hook", B("func() int")), NM(pkg, "Pipe", B("chan int")),
+                 SL(B("string")), O("map[string]string"), P(B("int"))] for pkg in ("src", "dest")}
 ARR4, ARR2I, ARR1 = O("[4]uint8"), O("[2]int"), O("[1]uint8")          # arrays: opaque to the model but for identity
 
 SRC_TYPES_GO = """package src
@@ -74,6 +79,14 @@ type Item struct {
 	Sub  *Sub   // nil-ness below a mapped sub-struct: the oracle varies these (never the first field)
 	Subs []*Sub
 }
+
+// named composite / nil-able types (their zero value is nil - or, for the array, the zero array - never `T{}` of a slice or map)
+type Tags []string
+type Attrs map[string]string
+type Hash [4]uint8
+type PInt *int
+type Hook func() int
+type Pipe chan int
 """
 DEST_TYPES_GO = """package dest
 
@@ -94,6 +107,12 @@ type Twin struct {
 	V   int
 	Hid string
 }
+type Tags []string
+type Attrs map[string]string
+type Hash [4]uint8
+type PInt *int
+type Hook func() int
+type Pipe chan int
 """
 
 INTS = {"int", "int8", "int16", "int32", "int64", "uint", "uint8", "uint16", "uint32", "uint64"}
@@ -400,13 +419,13 @@ def render_src(spec, modpath, pkgname="src"):
     s = spec["src"]
     mp = spec.get("mapper")
     body = ["package " + pkgname, ""]
-    need_dest = bool(spec.get("manual")) or any(mentions_pkg(t, "dest") for c_ in [spec.get("companion")] if c_ for _, a, b in c_["pairs"] for t in (a, b)) or any(mentions_pkg(t, "dest") for t in all_types(spec) if True) and (
+    need_dest = bool(spec.get("manual")) or any(mentions_pkg(t, "dest") for d_ in (spec.get("decoys") or []) for t in (d_["param"], d_["result"])) or any(mentions_pkg(t, "dest") for c_ in [spec.get("companion")] if c_ for _, a, b in c_["pairs"] for t in (a, b)) or any(mentions_pkg(t, "dest") for t in all_types(spec) if True) and (
         any(mentions_pkg(m["type"], "dest") for _, m in leaves(s)) or
         (mp and any(mentions_pkg(f["param"], "dest") or mentions_pkg(f["result"], "dest") for f in mp["funcs"])))
     imps = []
     if need_dest:
         imps.append('"%s/dest"' % modpath)
-    if (mp and mp["funcs"]) or spec.get("companion"):
+    if (mp and mp["funcs"]) or spec.get("companion") or spec.get("decoys"):
         imps.append('"verifcases/vo"')
     if imps:
         body.append("import (\n\t" + "\n\t".join(imps) + "\n)\n")
@@ -416,6 +435,16 @@ def render_src(spec, modpath, pkgname="src"):
             recv = ("*" if mp.get("recvptr") else "") + mp["name"]
             pt, rt = go_type(f["param"], "src"), go_type(f["result"], "src")
             body.append("func (%s) %s(x %s) %s { return vo.MapFn[%s, %s](x, %d) }\n" % (recv, f["name"], pt, rt, pt, rt, k))
+    # decoys: methods with mapper-like signatures (one parameter, one result, exactly the types of a name-matched pair) declared in
+    # the mapper's file on OTHER receivers - the source type itself (value / pointer receiver), a second struct. They are not
+    # mapper methods and must never be used (seeded change C05-13 loses the pointer-receiver case of the receiver test)
+    dcs = spec.get("decoys") or []
+    if any(d_["recv"].startswith("other") for d_ in dcs):
+        body.append("type Helper struct{}\n")
+    for k, d_ in enumerate(dcs):
+        recv = {"src": s["name"], "srcptr": "*" + s["name"], "other": "Helper", "otherptr": "*Helper"}[d_["recv"]]
+        pt, rt = go_type(d_["param"], "src"), go_type(d_["result"], "src")
+        body.append("func (r %s) Dk%d(x %s) %s { return vo.MapFn[%s, %s](x, 4) }\n" % (recv, k, pt, rt, pt, rt))
     comp = spec.get("companion")
     if comp:
         # a companion type that is processed BEFORE the observed one in the same run: it embeds a mapper whose method
@@ -747,6 +776,7 @@ class MapGen:
             return self.pick(paths[1:])
 
         n = r.randint(lo, hi)
+        concepts = []
         for _ in range(n):
             kind = self.pick(kinds)
             nk = self.pick(names)
@@ -758,6 +788,7 @@ class MapGen:
                 continue
             used_s.add(sn)
             used_d.add(dn)
+            concepts.append((a, b))
             tag = None
             if nk in ("tag", "underscore"):
                 tag = dn
@@ -788,6 +819,10 @@ class MapGen:
             for _ in range(r.choice([0, 1, 1, 2]) if r.random() < o.get("extra", 0.8) else 0):
                 nm = pools["ident"].pop() + ("X" if side == "s" else "Y")
                 t = self.pick(SAME[:8])
+                if r.random() < o.get("nilable", 0.2):
+                    # an unmatched field of a nil-able (named) type: as constructor parameter of a shoot-new side it gets the zero
+                    # literal - `nil`, not `T{}` (seeded change C15-13); the oracle tells nil from empty
+                    t = self.pick(NILABLE["src" if side == "s" else "dest"])
                 fields[place(paths, 0.4)].append(F(nm, t))
                 used.add(nm)
             if r.random() < o.get("unexported", 0.2):
@@ -880,6 +915,8 @@ class MapGen:
                 f["name"] = "Fn%d" % i
             mapper = {"name": "Mapper", "ptr": r.random() < o.get("mapper_ptr", 0.0), "recvptr": False, "funcs": funcs}
         spec = {"flags": flags, "sname": sname, "dname": dname, "src": src, "dest": dest, "mapper": mapper}
+        if mapper and r.random() < o.get("decoys", 0.35):
+            add_decoys(r, spec, concepts)
         # empty manual hooks (toX/writeX, fromX/readX): called last, assign nothing
         if r.random() < o.get("manual", 0.0):
             spec["manual"] = {"write": self.pick([None, "to", "write"]), "read": self.pick(["from", "read", "read"]),
@@ -901,6 +938,33 @@ class MapGen:
         if r.random() < o.get("selfembed", 0.03):
             add_self_embed(r, spec, o.get("selfembed_side"), o.get("selfembed_variant"))
         return spec
+
+
+def fn_safe(t):
+    """types the oracle's MapFn can read a sentinel from and write one into"""
+    if t[0] == "b":
+        return t[1] in INTS or t[1] in FLOATS or t[1] == "string"
+    if t[0] == "n":
+        return t[3][0] == "st" and t in (DEST_DEC, SRC_SUB, DEST_SUB) or (t[3][0] == "b" and fn_safe(t[3]))
+    return t[0] == "s" and t[1] in (INT, STR)
+
+
+def add_decoys(rng, spec, concepts, k=3):
+    """methods that LOOK like mapper methods for name-matched pairs of the observed type (both directions), on receivers other
+    than the mapper type; never with the signature of a real mapper method (then the text would not say which applies)"""
+    real = {(f["param"], f["result"]) for f in spec["mapper"]["funcs"]}
+    sigs = []
+    for a, b in concepts:
+        for x, y in ((a, b), (b, a)):
+            if fn_safe(x) and fn_safe(y) and (x, y) not in real and (x, y) not in sigs:
+                sigs.append((x, y))
+    rng.shuffle(sigs)
+    out = []
+    for x, y in sigs[:k]:
+        out.append({"recv": rng.choice(["srcptr", "srcptr", "src", "otherptr", "other"]), "param": x, "result": y})
+    if out:
+        spec["decoys"] = out
+    return spec
 
 
 def add_self_embed(rng, spec, side=None, variant=None):
@@ -1496,14 +1560,19 @@ def add_companion(rng, spec, file_mode=0.0, disabled=0.5):
     methods have exactly the types of name-matched pairs of the observed type, which has no mapper of its own"""
     if spec.get("mapper") or spec["src"]["kind"] == "new":
         return spec
-    dtop = {m["name"]: m for m in spec["dest"]["members"] if m["k"] == "f"}
+    # (an accessor-mode destination spells its fields unexported: `Amount` meets `amount` - the constructor parameter)
+    newd = spec["dest"]["kind"] == "new"
+    key = (lambda n: n.lower()) if newd else (lambda n: n)
+    dtop = {key(m["name"]): m for m in spec["dest"]["members"] if m["k"] == "f"}
     bad = {BOOL, P(BOOL)}
     pairs = []
     for m in spec["src"]["members"]:
-        if m["k"] != "f" or m.get("tag") is not None or m["name"] not in dtop:
+        if m["k"] != "f" or m.get("tag") is not None or key(m["name"]) not in dtop:
             continue
-        a, b = m["type"], dtop[m["name"]]["type"]
-        if ({a, b} & bad or elem_struct(a) or elem_struct(b) or dtop[m["name"]].get("tag") is not None or
+        a, b = m["type"], dtop[key(m["name"])]["type"]
+        if newd and not (fn_safe(a) and fn_safe(b)):
+            continue
+        if ({a, b} & bad or elem_struct(a) or elem_struct(b) or dtop[key(m["name"])].get("tag") is not None or
                 (a, b) in [(x, y) for _, x, y in pairs]):
             continue
         pairs.append((m["name"], a, b))
@@ -1536,6 +1605,10 @@ def count_features(spec, feats=None):
         inc("flag-to")
     if spec.get("companion"):
         inc("companion-" + spec["companion"]["mode"] + ("-disabled-embed" if spec["companion"]["disabled_embed"] else ""))
+    for d_ in spec.get("decoys") or []:
+        inc("decoy-method-" + d_["recv"])
+    if spec.get("companion") and spec["dest"]["kind"] == "new":
+        inc("companion-before-shootnew-dest")
     if spec.get("mapper"):
         inc("mapper-ptr" if spec["mapper"]["ptr"] else "mapper-val")
         inc("mapper-funcs-%d" % min(len(spec["mapper"]["funcs"]), 3))
@@ -1571,6 +1644,8 @@ def count_features(spec, feats=None):
                         inc("ptr-struct")
                     elif is_struct_named(t):
                         inc("val-struct")
+                    elif t in NILABLE["src"] or t in NILABLE["dest"]:
+                        inc("nilable-" + (t[2] if t[0] == "n" else "unnamed"))
                     elif t[0] == "n":
                         inc("named-scalar")
                     elif t[0] == "o":
